@@ -140,9 +140,8 @@ func (in *Interp) callValue(th *Thread, fnv Value, args []Value, retTo ssa.Value
 }
 
 var initWhitelist = map[string]bool{
-	"io": true, "io/fs": true, "internal/oserror": true, "path": true,
-	"unicode/utf8": true, "math/bits": true, "encoding/binary": true, "bytes": true,
-	"strings": true, "sort": true, "path/filepath": true, "math": true, "unicode": true,
+	"io": true, "io/fs": true, "internal/oserror": true, "path": true, "path/filepath": true,
+	"unicode/utf8": true, "bytes": true,
 }
 
 func (in *Interp) allowInit(p *ssa.Package) bool {
